@@ -1895,6 +1895,19 @@ class unyt_array(np.ndarray):
                     raise UnitOperationError(ufunc, u0, u1)
             unit_operator = self._ufunc_registry[ufunc]
 
+            if ufunc in (remainder, fmod, divmod_, hypot) and (
+                u0.base_offset
+                and u0.dimensions is temperature
+                or u1.base_offset
+                and u1.dimensions is temperature
+            ):
+                # these divide or square the readings, which is refused for
+                # multiply, divide and floor_divide below
+                raise InvalidUnitOperation(
+                    "Quantities with units of Fahrenheit or Celsius "
+                    "cannot be multiplied, divided, subtracted or added."
+                )
+
             if (
                 unit_operator is _preserve_units
                 and u0.dimensions is temperature
